@@ -14,6 +14,16 @@
 //! tracked proof must equal the path read off these trees and must verify against the accumulator's peaks; the
 //! accumulator's peaks must be the roots; the "modified" sets returned by the batch routines must be exactly the
 //! proofs whose digests changed, and a single-update routine returning `false` must not have changed the proof.
+//!
+//!   bhist (count;peaks;known) ops          a history (same op grammar, same reply) that starts from
+//!                                          `MmrAccumulator::init(peaks, count)` with a LARGE structured leaf count
+//!                                          (2^k-1, 2^k-j, runs of ones up to bit 62: appends carry through high bits);
+//!                                          `known = [(index;leaf;path),…]` are the materialised leafs from which the
+//!                                          harness rebuilds a sparse from-scratch forest (`c12::sparse::Sparse`):
+//!                                          after every op the peaks must equal the peaks recomputed by folding and every
+//!                                          tracked proof must be the recomputed path and verify.  Evaluated in a
+//!                                          watchdog child process (`util::guarded_out`).
+use super::c12::sparse::{pick_tracked, Sparse};
 use super::c12::spec::{locate, peak_pos};
 use crate::util::*;
 use twenty_first::prelude::*;
@@ -432,6 +442,279 @@ fn gen_history(rng: &mut Rng, max_k: u64, len: u64) -> String {
     format!("mmrp hist [{}]", ops.join(","))
 }
 
+// ---- histories on init(peaks, LARGE count) ---------------------------------------------------------------
+
+struct BigHist {
+    acc: MmrAccumulator,
+    sp: Option<Sparse>, // None: the op line left the class "valid proofs of materialised leafs" -- oracles off
+    tracked: Vec<(u64, MmrMembershipProof)>,
+    fails: Vec<String>,
+}
+
+impl BigHist {
+    fn check(&mut self, k: usize, what: &str) {
+        if self.sp.as_ref().map(|s| s.n >= 1 << 63).unwrap_or(false) {
+            self.sp = None; // outside the property's domain (< 2^63 leafs: node indices fit u64)
+        }
+        let Some(sp) = &mut self.sp else { return };
+        if sp.peaks() != self.acc.peaks() || self.acc.num_leafs() != sp.n {
+            self.fails.push(format!("op {k} ({what}): accumulator differs from the peaks recomputed by folding"));
+        }
+        for (slot, (li, mp)) in self.tracked.iter().enumerate() {
+            let Some(leaf) = sp.leafs.get(li).copied() else { continue };
+            if mp.authentication_path != sp.path(*li) {
+                self.fails.push(format!("op {k} ({what}): tracked proof {slot} (leaf {li}) is not the authentication path recomputed by folding"));
+            }
+            if !mp.verify(*li, leaf, &self.acc.peaks(), self.acc.num_leafs()) {
+                self.fails.push(format!("op {k} ({what}): tracked proof {slot} (leaf {li}) does not verify against the new accumulator"));
+            }
+        }
+        if sp.missing > 0 {
+            self.sp = None;
+        }
+    }
+
+    fn check_modified(&mut self, k: usize, what: &str, returned: &[usize], before: &[MmrMembershipProof], after: &[MmrMembershipProof]) {
+        let changed: Vec<usize> = (0..before.len()).filter(|&i| before[i].authentication_path != after[i].authentication_path).collect();
+        let mut r = returned.to_vec();
+        r.sort();
+        if r != changed || r.len() != returned.len() {
+            self.fails.push(format!("op {k} ({what}): reported modified {returned:?} but changed {changed:?}"));
+        }
+    }
+
+    fn append(&mut self, k: usize, d: Digest, trk: bool, how: u64, order: &[u64], st: &mut Stats) -> Option<String> {
+        let mut sel = select(&self.tracked, order)?;
+        let before: Vec<MmrMembershipProof> = sel.iter().map(|x| x.1.clone()).collect();
+        let (cnt, peaks) = (self.acc.num_leafs(), self.acc.peaks());
+        let ret;
+        if how == 0 {
+            let mut bs = vec![];
+            for (li, mp) in sel.iter_mut() {
+                bs.push(mp.update_from_append(*li, cnt, d, &peaks) as u64);
+            }
+            for (i, b) in bs.iter().enumerate() {
+                if (*b == 1) != (before[i].authentication_path != sel[i].1.authentication_path) {
+                    self.fails.push(format!("op {k}: update_from_append returned {} but the proof {}", *b == 1, if *b == 1 { "is unchanged" } else { "was altered" }));
+                }
+            }
+            ret = fmt_list_u64(&bs);
+        } else {
+            let lis: Vec<u64> = sel.iter().map(|x| x.0).collect();
+            let mut mps: Vec<&mut MmrMembershipProof> = sel.iter_mut().map(|x| &mut x.1).collect();
+            let ms = MmrMembershipProof::batch_update_from_append(&mut mps, &lis, cnt, d, &peaks);
+            let after: Vec<MmrMembershipProof> = sel.iter().map(|x| x.1.clone()).collect();
+            self.check_modified(k, "batch_update_from_append", &ms, &before, &after);
+            ret = fmt_list_u64(&ms.iter().map(|&x| x as u64).collect::<Vec<_>>());
+        }
+        let top = 64 - (cnt ^ cnt.wrapping_add(1)).leading_zeros();
+        st.hit(&format!("bhist:append how={} carry reaches bit {}", how, match top { 0..=16 => "0-15", 17..=31 => "16-30", 32..=33 => "31-32", 34..=48 => "33-47", _ => "48-62" }));
+        let mp = self.acc.append(d);
+        if let Some(sp) = &mut self.sp {
+            sp.append(d);
+        }
+        self.tracked = sel;
+        if trk {
+            self.tracked.push((cnt, mp));
+        }
+        Some(ret)
+    }
+
+    fn valid_mutation(&mut self, i: u64, proof: &[Digest]) -> bool {
+        match &mut self.sp {
+            Some(sp) => sp.leafs.contains_key(&i) && sp.path(i) == proof,
+            None => false,
+        }
+    }
+
+    fn step(&mut self, k: usize, op: &Arg, st: &mut Stats) -> Option<String> {
+        let Arg::Tup(t) = op else { return None };
+        match (t[0].u64()?, t.len()) {
+            (0, 5) => {
+                let r = self.append(k, t[1].digest()?, t[2].u64()? == 1, t[3].u64()?, &t[4].u64s()?, st)?;
+                self.check(k, "append");
+                Some(r)
+            }
+            (1, 6) => {
+                let (i, d, proof, how, order) = (t[1].u64()?, t[2].digest()?, t[3].digests()?, t[4].u64()?, t[5].u64s()?);
+                let valid = self.valid_mutation(i, &proof);
+                let lm = LeafMutation::new(i, d, MmrMembershipProof::new(proof));
+                let mut sel = select(&self.tracked, &order)?;
+                let before: Vec<MmrMembershipProof> = sel.iter().map(|x| x.1.clone()).collect();
+                let ret;
+                if how == 0 {
+                    let mut bs = vec![];
+                    for (li, mp) in sel.iter_mut() {
+                        bs.push(mp.update_from_leaf_mutation(*li, &lm) as u64);
+                    }
+                    for (j, b) in bs.iter().enumerate() {
+                        if *b == 0 && before[j].authentication_path != sel[j].1.authentication_path {
+                            self.fails.push(format!("op {k}: update_from_leaf_mutation returned false but altered the proof"));
+                        }
+                    }
+                    ret = fmt_list_u64(&bs);
+                } else {
+                    let lis: Vec<u64> = sel.iter().map(|x| x.0).collect();
+                    let mut mps: Vec<MmrMembershipProof> = before.clone();
+                    let ms = MmrMembershipProof::batch_update_from_leaf_mutation(&mut mps, &lis, lm.clone());
+                    self.check_modified(k, "batch_update_from_leaf_mutation", &ms.iter().map(|&x| x as usize).collect::<Vec<_>>(), &before, &mps);
+                    for (x, mp) in sel.iter_mut().zip(mps) {
+                        x.1 = mp;
+                    }
+                    ret = fmt_list_u64(&ms);
+                }
+                st.hit(&format!("bhist:mutate how={} valid={} own_tracked={}", how, valid, sel.iter().any(|x| x.0 == i)));
+                self.acc.mutate_leaf(lm);
+                match (&mut self.sp, valid) {
+                    (Some(sp), true) => {
+                        sp.leafs.insert(i, d);
+                    }
+                    _ => self.sp = None,
+                }
+                self.tracked = sel;
+                self.check(k, "mutate");
+                Some(ret)
+            }
+            (2, 4) => {
+                let (muts, how, order) = (t[1].list()?, t[2].u64()?, t[3].u64s()?);
+                let mut lms = vec![];
+                let mut valid = true;
+                for m in muts {
+                    let Arg::Tup(m) = m else { return None };
+                    let (i, d, p) = (m[0].u64()?, m[1].digest()?, m[2].digests()?);
+                    valid &= self.valid_mutation(i, &p);
+                    lms.push(LeafMutation::new(i, d, MmrMembershipProof::new(p)));
+                }
+                let mut sel = select(&self.tracked, &order)?;
+                let before: Vec<MmrMembershipProof> = sel.iter().map(|x| x.1.clone()).collect();
+                let lis: Vec<u64> = sel.iter().map(|x| x.0).collect();
+                let ms;
+                {
+                    let mut mps: Vec<&mut MmrMembershipProof> = sel.iter_mut().map(|x| &mut x.1).collect();
+                    if how == 0 {
+                        ms = self.acc.batch_mutate_leaf_and_update_mps(&mut mps, &lis, lms.clone());
+                    } else {
+                        ms = MmrMembershipProof::batch_update_from_batch_leaf_mutation(&mut mps, &lis, lms.clone());
+                        self.acc.batch_mutate_leaf_and_update_mps(&mut [], &[], lms.clone());
+                    }
+                }
+                let after: Vec<MmrMembershipProof> = sel.iter().map(|x| x.1.clone()).collect();
+                self.check_modified(k, if how == 0 { "batch_mutate_leaf_and_update_mps" } else { "batch_update_from_batch_leaf_mutation" }, &ms, &before, &after);
+                st.hit(&format!("bhist:batch how={} valid={} n={}", how, valid, lms.len().min(5)));
+                match (&mut self.sp, valid) {
+                    (Some(sp), true) => {
+                        for m in &lms {
+                            sp.leafs.insert(m.leaf_index, m.new_leaf);
+                        }
+                    }
+                    _ => self.sp = None,
+                }
+                self.tracked = sel;
+                self.check(k, "batch mutate");
+                Some(fmt_list_u64(&ms.iter().map(|&x| x as u64).collect::<Vec<_>>()))
+            }
+            (3, 4) => {
+                let (n, seed, how) = (t[1].u64()?, t[2].u64()?, t[3].u64()?);
+                for _ in 0..n {
+                    let order: Vec<u64> = (0..self.tracked.len() as u64).collect();
+                    let d = mk_leaf(seed, self.acc.num_leafs());
+                    self.append(k, d, false, how, &order, st)?;
+                }
+                self.check(k, "bulk append");
+                Some("[]".into())
+            }
+            (4, 3) => {
+                self.tracked.push((t[1].u64()?, MmrMembershipProof::new(t[2].digests()?)));
+                self.check(k, "track");
+                Some("[]".into())
+            }
+            _ => None,
+        }
+    }
+}
+
+/// one history line on `init(peaks, LARGE count)`; peaks and proofs come from the generator's sparse forest
+fn gen_big_history(rng: &mut Rng, len: u64) -> String {
+    let (n0, m0) = super::c12::carry_pair(rng);
+    let n0 = n0.max(1);
+    let k = rng.range(1, 4) as usize;
+    let idxs: Vec<(u64, Digest)> = pick_tracked(rng, n0, k).into_iter().map(|i| (i, dg(rng))).collect();
+    let mut sp = Sparse::random(rng.next(), n0, &idxs);
+    let peaks = sp.peaks();
+    let known: Vec<String> = idxs.iter().map(|(i, d)| format!("({};{};{})", i, fmt_digest(d), fmt_digests(&sp.path(*i)))).collect();
+    let mut ops: Vec<String> = vec![];
+    let mut tracked: Vec<u64> = vec![];
+    for (j, (i, _)) in idxs.iter().enumerate() {
+        // the last materialised leaf sometimes stays untracked (it is only mutated)
+        if j + 1 < idxs.len() || idxs.len() == 1 || rng.coin(2, 3) {
+            ops.push(format!("(4;{};{})", i, fmt_digests(&sp.path(*i))));
+            tracked.push(*i);
+        }
+    }
+    for step in 0..len {
+        // the property's domain is < 2^63 leafs (node indices fit u64): never append beyond 2^63 - 1
+        let room = ((1u64 << 63) - 1).saturating_sub(sp.n);
+        let mat: Vec<u64> = sp.leafs.keys().copied().collect();
+        let mut order = perm(rng, tracked.len());
+        if rng.coin(1, 4) {
+            order.sort();
+        }
+        let new_tracked: Vec<u64> = order.iter().map(|&s| tracked[s as usize]).collect();
+        let kind = if room == 0 { 3 + rng.below(5) } else if step == 0 { 9 } else { rng.below(10) };
+        match kind {
+            0..=2 => {
+                let d = dg(rng);
+                let trk = tracked.len() < 6 && rng.coin(1, 2);
+                ops.push(format!("(0;{};{};{};{})", fmt_digest(&d), trk as u8, rng.below(2), fmt_list_u64(&order)));
+                tracked = new_tracked;
+                if trk {
+                    tracked.push(sp.n);
+                }
+                sp.append(d);
+            }
+            3..=5 => {
+                let i = *rng.pick(&mat);
+                let d = if rng.coin(1, 10) { sp.leafs[&i] } else { dg(rng) };
+                ops.push(format!("(1;{};{};{};{};{})", i, fmt_digest(&d), fmt_digests(&sp.path(i)), rng.below(2), fmt_list_u64(&order)));
+                sp.leafs.insert(i, d);
+                tracked = new_tracked;
+            }
+            6 | 7 => {
+                let mut idx: Vec<u64> = mat.iter().copied().filter(|_| rng.coin(1, 2)).collect();
+                if idx.is_empty() {
+                    idx.push(*rng.pick(&mat));
+                }
+                idx.truncate(5);
+                let p = perm(rng, idx.len());
+                let idx: Vec<u64> = p.iter().map(|&j| idx[j as usize]).collect();
+                let mut muts = vec![];
+                let mut news = vec![];
+                for &i in &idx {
+                    let d = dg(rng);
+                    muts.push(format!("({};{};{})", i, fmt_digest(&d), fmt_digests(&sp.path(i))));
+                    news.push((i, d));
+                }
+                ops.push(format!("(2;[{}];{};{})", muts.join(","), rng.below(2), fmt_list_u64(&order)));
+                for (i, d) in news {
+                    sp.leafs.insert(i, d);
+                }
+                tracked = new_tracked;
+            }
+            _ => {
+                // run of appends: the first one makes the carry ripple through the run of ones
+                let m = (if step == 0 { (m0 as u64).clamp(1, 8) } else { rng.range(1, 4) }).min(room);
+                let s2 = rng.below(1 << 32);
+                ops.push(format!("(3;{};{};{})", m, s2, rng.below(2)));
+                for _ in 0..m {
+                    let d = mk_leaf(s2, sp.n);
+                    sp.append(d);
+                }
+            }
+        }
+    }
+    format!("mmrp bhist ({};{};[{}]) [{}]", n0, fmt_digests(&peaks), known.join(","), ops.join(","))
+}
+
 pub fn gen(rng: &mut Rng, thorough: bool, out: &mut Vec<String>) {
     // fast-hash validation of the model driver
     for _ in 0..(if thorough { 1000 } else { 100 }) {
@@ -442,6 +725,11 @@ pub fn gen(rng: &mut Rng, thorough: bool, out: &mut Vec<String>) {
     for i in 0..nh {
         let l = if i % 10 == 0 { 3 * len } else { rng.range(4, len) };
         out.push(gen_history(rng, if i % 4 == 0 { 5 } else { max_k }, l));
+    }
+    // histories on init(peaks, LARGE structured count): carries through high bits of the leaf count
+    for _ in 0..(if thorough { 1500 } else { 48 }) {
+        let l = rng.range(2, if thorough { 14 } else { 7 });
+        out.push(gen_big_history(rng, l));
     }
     // bounded model check in the Lean model (free hash algebra): all shapes up to N leaves
     out.push(if thorough { "mmrp free_check 64 20".to_string() } else { "mmrp free_check 20 10".to_string() });
@@ -609,6 +897,44 @@ pub fn run_mmrp(op: &str, a: &[Arg], st: &mut Stats) -> Option<Out> {
             }
             st.hit(&format!("hist:final_count_bits={}", 64 - (h.leaves.len() as u64).leading_zeros()));
             st.hit(&format!("hist:ops={}", match ops.len() { 0..=10 => "<=10", 11..=30 => "11-30", _ => ">30" }));
+            let proofs: Vec<String> = h.tracked.iter().map(|t| fmt_digests(&t.1.authentication_path)).collect();
+            let reply = format!(
+                "ok:{}#{}#{}#{}#[{}]",
+                segs.join("|"),
+                h.acc.num_leafs(),
+                fmt_digests(&h.acc.peaks()),
+                fmt_list_u64(&h.tracked.iter().map(|t| t.0).collect::<Vec<_>>()),
+                proofs.join(",")
+            );
+            let fail = h.fails.first().cloned();
+            Out::ok(reply).with_oracle(fail.is_none(), fail.unwrap_or_default())
+        }
+        ("bhist", [_, _]) if !in_guarded_child() => {
+            if let Arg::Tup(v) = &a[0] {
+                if let Some(c) = v.first().and_then(|x| x.u64()) {
+                    st.hit(&format!("bhist:start count bits={} peaks={}", match 64 - c.leading_zeros() { 0..=16 => "0-16", 17..=31 => "17-31", 32..=33 => "32-33", 34..=48 => "34-48", _ => "49-63" }, match c.count_ones() { 0..=8 => "0-8", 9..=24 => "9-24", _ => "25-63" }));
+                }
+            }
+            guarded_out("mmrp", op, a, st, "a membership-proof history on MmrAccumulator::init(peaks, large count)")
+        }
+        ("bhist", [start, ops]) => {
+            let Arg::Tup(sv) = start else { return None };
+            let (c, peaks) = (sv.first()?.u64()?, sv.get(1)?.digests()?);
+            let mut known = vec![];
+            for kn in sv.get(2)?.list()? {
+                let Arg::Tup(kv) = kn else { return None };
+                known.push((kv.first()?.u64()?, kv.get(1)?.digest()?, kv.get(2)?.digests()?));
+            }
+            let ops = ops.list()?;
+            let sp = Sparse::from_known(c, &peaks, &known);
+            st.hit(if sp.is_some() { "bhist:start consistent with the materialised leafs" } else { "bhist:start NOT consistent (oracles off)" });
+            let mut h = BigHist { acc: MmrAccumulator::init(peaks, c), sp, tracked: vec![], fails: vec![] };
+            let mut segs = vec![];
+            for (k, op) in ops.iter().enumerate() {
+                let ret = h.step(k, op, st)?;
+                let cs: Vec<String> = h.tracked.iter().map(|t| cks(&t.1.authentication_path)).collect();
+                segs.push(format!("{};[{}]", ret, cs.join(",")));
+            }
             let proofs: Vec<String> = h.tracked.iter().map(|t| fmt_digests(&t.1.authentication_path)).collect();
             let reply = format!(
                 "ok:{}#{}#{}#{}#[{}]",
